@@ -25,7 +25,7 @@ SAFE_VDIMS = {
     4: [None, ["a", "b", "c", "d"], ["v_0", "v_1", "v_2", "v_3"]],
     5: [None, ["a", "b", "c", "d", "e"]],
 }
-UNITS = [None, None, "A/m", "T", "J/m3", "rad"]
+UNITS = [None, None, "A/m", "T", "J/m3", "rad", "V:s"]
 SPECIALS8 = [0.0, -0.0, 5e-324, 1.7976931348623157e308, -1.7976931348623157e308, 2.2250738585072014e-308, 1.0, -1.0]
 SPECIALS4 = [0.0, -0.0, 1e-45, 3.4028234663852886e38, -3.4028234663852886e38, 1.1754943508222875e-38, 1.0]
 
@@ -155,7 +155,7 @@ class StoreProfile(Profile):
         return seq[0]
 
     # ---- shared generators ---------------------------------------------------------
-    PUNCT_VDIMS = {2: [["m-x", "m-y"], ["x.1", "x.2"]], 3: [["m-x", "m-y", "m-z"], ["a.b", "a+c", "d"], ["x'", "y'", "z'"]], 4: [["k-1", "k-2", "k-3", "k-4"]]}
+    PUNCT_VDIMS = {2: [["m-x", "m-y"], ["x.1", "x.2"], ["a:b", "c"]], 3: [["m-x", "m-y", "m-z"], ["a.b", "a+c", "d"], ["x'", "y'", "z'"]], 4: [["k-1", "k-2", "k-3", "k-4"]]}
 
     def draw_field(self, rng, st, out, ndim, max_cells, max_subs, same_units, reps, **kw):
         cfg = st.cfg
@@ -391,6 +391,8 @@ class Hdf5Profile(StoreProfile):
             ndim = rng.choice([1, 2, 3, 3, 4])
             o = self.draw_field(rng, st, out, ndim, 200, cfg["max_subs"], False, None, intcorners_p=cfg["intcorners_p"], tol_any=True)
             o["dtype"] = rng.choice(cfg["dtypes"])
+            if o["dtype"] == "int" and rng.random() < 0.4:
+                o["bigint"] = True
             if cfg.get("large") and not st.f:
                 # more than 2**16 values, no round numbers: chunked code paths, if any
                 n_big = {1: [70001], 2: [263, 251], 3: [47, 41, 37], 4: [17, 16, 15, 17]}[ndim]
